@@ -492,6 +492,12 @@ func (s *InMemoryStore) DeleteTopic(ctx context.Context, name string) error {
 			delete(s.offsets, key)
 		}
 	}
+	for key := range s.consumerOffsets {
+		if _, topic, _, ok := parseConsumerKey(key); ok && topic == name {
+			delete(s.consumerOffsets, key)
+			delete(s.consumerMeta, key)
+		}
+	}
 	return nil
 }
 
